@@ -23,7 +23,8 @@ for d in ${SEEDED_DIRS:-seeded/C*_*}; do
     rc=$(echo "$o" | grep -o 'exit=[0-9]*' | tail -1)
     ob=$(echo "$o" | grep -m1 "obligation\|bounded_" | sed 's/^ *//' | cut -c1-150)
     case "$rc" in
-      exit=1) res="$res **$c: VIOLATION** ($ob)";;
+      exit=1) rp=""; echo "$o" | grep "^VIOLATION" | grep -qv "no-failing-input-found" && rp=" [failing input replayed]"
+              res="$res **$c: VIOLATION**$rp ($ob)";;
       exit=0) res="$res $c: not detected";;
       exit=2) res="$res $c: undecided ($(echo "$o" | grep -m1 UNDECIDED | cut -c1-140))";;
       *) res="$res $c: $rc $(echo "$o" | grep -m1 'PATCH FAILED\|ERROR' | cut -c1-100)";;
